@@ -523,6 +523,31 @@ def stall_extra(pid, inner=None):
     return extra
 
 
+def ledger_extra(pid, inner=None):
+    """Action-level correspondence of Ledger.v / LedgerUpd.v with the real CacheWeight (harness `ledger`, driver
+    ledgercorr.py): worker and sweeper threads stopped at the points inside CacheWeight::delete and ::update."""
+    def extra(ctx, res, allsched, impl):
+        import random
+        import ledgercorr
+        if inner:
+            inner(ctx, res, allsched, impl)
+        if ctx.get("replay"):
+            return
+        rng = random.Random(ctx["seed"] + 977)
+        ng, nu = (300, 200) if ctx["tier"] == "quick" else (6000, 4000)
+        cases = ledgercorr.gen_g(rng, ng) + ledgercorr.gen_u(rng, nu)
+        divs, fails, stats = ledgercorr.compare(ctx["binary"], cases, pid + "_ledger")
+        for d in divs[:3]:
+            res["divergences"].append(d)
+        want = {"C01": ("ledger-total-out-of-bounds", "ledger-step-stuck"), "C05": ("ledger-total-differs-from-charges", "ledger-total-out-of-bounds", "ledger-step-stuck")}[pid]
+        res["failures"] += [f for f in fails if f["signature"] in want][:3]
+        res["evaluations"] += stats["actions"]
+        res["traces"] += stats["cases"]
+        res["extra"]["ledger_action_level"] = stats
+        res["rule"] += "; plus %d action-level ledger cases (%d actions carried out on the real CacheWeight with worker and sweeper stopped inside delete / update, total and charges compared with Ledger.v / LedgerUpd.v after each)" % (stats["cases"], stats["carried_out"])
+    return extra
+
+
 def window_extra(pid, inner=None, monitor=False):
     """Schedules with overtaking (a put_or_update stopped between its store update and its index update, the worker stopped
     between the store insert and the index registration of a put with time-to-live, other events in between), run on the
@@ -655,14 +680,14 @@ def mk(pid, profiles, nq, nt, **kw):
 
 
 PROPS.update({
-    "C01": dict(module="C01", modules=["C01", "C01_ledger", "C01_micro"], run=mk("C01", ["general", "default_weights", "ttl", "queue1", "evict", "evict2"], 260, 4000, extra=kernel_extra("C01", ["is_space_available_for", "update_weight_stats"], release_extra("C01", stress2_extra("C01")))),
+    "C01": dict(module="C01", modules=["C01", "C01_ledger", "C01_micro"], run=mk("C01", ["general", "default_weights", "ttl", "queue1", "evict", "evict2"], 260, 4000, extra=kernel_extra("C01", ["is_space_available_for", "update_weight_stats"], release_extra("C01", ledger_extra("C01", stress2_extra("C01"))))),
                 components=["weights", "admission", "api", "queue_worker", "store", "ticker"],
-                assumptions=["schedule class proved: all phase-contiguous schedules (one call / command / sweep / batch at a time; calls may be unawaited, callers may be parked); finer interleavings of the worker's check-then-add with sweeper subtractions: ledger model (Ledger.v) once built",
+                assumptions=["schedule class proved: all phase-contiguous schedules (one call / command / sweep / batch at a time; calls may be unawaited, callers may be parked); finer interleavings of the worker's check-then-add with sweeper subtractions: ledger model (Ledger.v), tied to the real CacheWeight one action at a time (harness `ledger`)",
                              "overflow-checking (debug) profile"]),
     "C03": dict(module="C03", modules=["C03", "C03_micro"], run=mk("C03", ["roomy", "awaited", "ttl", "ttlchain", "general"], 250, 4000), components=["store", "weights", "admission", "ticker", "api", "queue_worker", "time"],
                 assumptions=["partial: phase-contiguous schedules; 'no memory pressure' is stated per executed put (it fits the free space)"]),
     "C04": dict(module="C04", modules=["C04", "C04_micro"], run=mk("C04", ["general", "ttl", "awaited", "queue1", "expired"], 270, 4000, extra=micro_extra("C04", order_extra("C04", stress2_extra("C04")))), components=["store", "api", "queue_worker", "weights", "ticker"]),
-    "C05": dict(module="C05", modules=["C05", "C05_micro", "C05_ledger"], run=mk("C05", ["general", "queue1", "ttl", "evict", "evict2"], 250, 4000, extra=micro_extra("C05", stress_quiescent_extra("C05", stress2_extra("C05")))), components=["weights", "store", "api", "queue_worker", "ticker", "admission"]),
+    "C05": dict(module="C05", modules=["C05", "C05_micro", "C05_ledger"], run=mk("C05", ["general", "queue1", "ttl", "evict", "evict2"], 250, 4000, extra=micro_extra("C05", ledger_extra("C05", stress_quiescent_extra("C05", stress2_extra("C05"))))), components=["weights", "store", "api", "queue_worker", "ticker", "admission"]),
     "C06": dict(module="C06", run=mk("C06", ["evict2", "evict", "general"], 270, 4000, extra=kernel_extra("C06", ["sampled_key_cmp", "is_space_available_for"])), components=["admission", "weights", "sketch", "tinylfu", "store"]),
     "C07": dict(module="C07", modules=["C07", "C07_micro"], run=mk("C07", ["general", "ttl", "awaited", "expired"], 260, 4000, extra=micro_extra("C07", stress2_extra("C07", "nottl"), profiles=("general", "ttl", "awaited", "queue1"))), components=["store", "api", "time", "queue_worker"]),
     "C08": dict(module="C08", modules=["C08", "C08_window", "C08_micro"], run=mk("C08", ["general", "ttl", "roomy", "ttlchain", "upsertpipe", "expired"], 270, 4000, extra=window_extra("C08", monitor=True)), components=["store", "api", "ticker", "weights", "time", "queue_worker"]),
